@@ -178,6 +178,12 @@ def _completion_check(out, project, res, src, env, member_names=frozenset()):
     root = rscope.build(tree)
     lines, starts = _offsets(src)
     seen = set()
+    imported_at = {}
+    for st_ in tree.body:
+        if isinstance(st_, (ast.Import, ast.ImportFrom)):
+            for al_ in st_.names:
+                if al_.name != "*":
+                    imported_at.setdefault(al_.asname or al_.name.split(".")[0], st_.end_lineno)
     header_names = set()
     comp_targets_by_line = {}
     for n in ast.walk(tree):
@@ -249,6 +255,20 @@ def _completion_check(out, project, res, src, env, member_names=frozenset()):
             where = "%s offset %d (prefix %r in %s %r, line %d)" % (res.path, off, pre, scope.kind, scope.name, node.lineno)
             if missing:
                 out.violation("C20:incomplete:%s" % scope.kind, "%s: visible but not offered %s" % (where, sorted(missing)[:5]), {"off": off})
+            # later_locals=False only hides names defined BELOW the cursor: a name imported at the top of the module is
+            # defined above it wherever the imported object's own definition sits in its module
+            early = {n_ for n_, ln_ in imported_at.items() if ln_ < node.lineno and n_.startswith(pre) and n_ in visible and rscope.resolve(scope, n_) is root}
+            if early and not missing:
+                out.evals += 1
+                try:
+                    props_e = codeassist.code_assist(project, src, off, res, later_locals=False)
+                    miss_e = early - {p.name for p in props_e}
+                    if miss_e:
+                        out.violation("C20:incomplete_without_later_locals:%s" % scope.kind, "%s: imported above the cursor but not offered with later_locals=False %s" % (where, sorted(miss_e)[:5]), {"off": off})
+                except rex.RopeError:
+                    out.refused += 1
+                except Exception:
+                    pass
             if unsound:
                 out.violation("C20:unsound:%s" % scope.kind, "%s: offered but not referable %s" % (where, sorted(unsound)[:5]), {"off": off})
             if props:
